@@ -1,10 +1,18 @@
 #!/bin/sh
-# try_seed.sh <seed-id> <check-id> [tier]: applies a seeded change to /repo, runs the check, reverts
+# try_seed.sh <seed-id> <check-id> [tier]: runs a check against a scratch worktree of /repo with the seeded change applied
+# (VERIF_REPO points the build driver at it; /repo itself is not touched, so this can run next to other checks).
+# The evidence file of the check is saved and restored, the run's own evidence goes to /tmp/try_<seed>.<check>.evidence.json
 id=$1; chk=$2; tier=${3:-quick}
-cd /repo && git status --short | grep -q . && { echo "/repo not clean"; exit 2; }
-git -C /repo apply /verif/seeded/$id/patch.diff || exit 2
-cd /verif && timeout 3000 ./check $chk --tier $tier > /tmp/try_$id.$chk.log 2>&1; rc=$?
-git -C /repo checkout -- . 
+wt=/tmp/seedtry_${id}_${chk}_$$
+git -C /repo worktree add -q --detach "$wt" HEAD || exit 2
+git -C "$wt" apply /verif/seeded/$id/patch.diff || { git -C /repo worktree remove --force "$wt"; exit 2; }
+cp /repo/config.h "$wt/config.h" 2>/dev/null
+cd /verif
+cp evidence/$chk.json /tmp/try_keep_$$.json 2>/dev/null
+VERIF_REPO="$wt" timeout 6000 ./check $chk --tier $tier > /tmp/try_$id.$chk.log 2>&1; rc=$?
+cp evidence/$chk.json /tmp/try_$id.$chk.evidence.json 2>/dev/null
+cp /tmp/try_keep_$$.json evidence/$chk.json 2>/dev/null; rm -f /tmp/try_keep_$$.json
+git -C /repo worktree remove --force "$wt"
 echo "seed $id under $chk ($tier): exit $rc"
 grep -A2 "^VIOLATION" /tmp/try_$id.$chk.log | cut -c1-260 | head -12
 tail -1 /tmp/try_$id.$chk.log | cut -c1-200
